@@ -335,6 +335,6 @@ impl Family for RegRace {
         out.into_iter().map(|s| serde_json::to_value(s).unwrap()).collect()
     }
     fn watchdog_ms(&self) -> u64 {
-        60_000
+        40_000
     }
 }
